@@ -91,7 +91,10 @@ def py_exec(req):
             from cirbo.core.circuit.validation import check_circuit_has_no_cycles
             from cirbo.core.circuit.exceptions import CircuitValidationError
             try:
-                check_circuit_has_no_cycles(c)
+                if req.get('start') is not None:
+                    check_circuit_has_no_cycles(c, start_gates=list(req['start']))
+                else:
+                    check_circuit_has_no_cycles(c)
                 return {'ok': False}
             except CircuitValidationError:
                 return {'ok': True}
